@@ -52,6 +52,9 @@ def problems(inst):
         "HP_LOAD_FRACTION": 0.5, "REFRIGERANTS": "R134a", "PRICE_RATIO_ELE_TO_FUEL": 2.0, "MAX_HP_MULTISTART": 3, "N_COND": 2, "N_EVAP": 1,
         "ETA_COMP": 0.6, "ETA_EXP": 0.6, "ETA_HP_CARNOT": 0.4, "ETA_HE_CARNOT": 0.4, "DTMIN_HP": 1.0, "DT_HP_IHX": 1.0,
         "UTILITY_PRICE": 50.0, "ANNUAL_OP_TIME": 8000.0, "FIXED_COST": 100.0, "VARIABLE_COST": 5000.0, "COST_EXP": 0.7, "DISCOUNT_RATE": 0.1, "SERV_LIFE": 10.0})))
+    # option values the library silently REPAIRS (a non-positive phase-change glide, a negative contribution, zero operating hours):
+    # the repair has to happen on every call, not only on the first one of a process
+    P.append(("repaired-options", A.problem([hot, cold], ["E", "E"], options={"DT_PHASE_CHANGE": 0.0, "DT_CONT": -1.0, "ANNUAL_OP_TIME": 0})))
     # the minimal dictionary: only the mandatory key (no "utilities", no "options", no "zone_tree")
     P[0] = ("plain", {"streams": P[0][1]["streams"]})
     return P
@@ -151,13 +154,13 @@ def digest_diff(a, b):
 
 
 # ------------------------------------------------------------------ service histories
-FULL = [(p, f) for p in range(5) for f in range(3)] + [(2, 3), (3, 3)]
+FULL = [(p, f) for p in range(6) for f in range(3)] + [(2, 3), (3, 3)]
 # the 9 events that carry state between calls: the reused model of every problem + dict/model forms
-REDUCED = [(p, 2) for p in range(5)] + [(0, 0), (2, 0), (3, 1), (3, 3)]
+REDUCED = [(p, 2) for p in range(6)] + [(0, 0), (2, 0), (3, 1), (3, 3), (5, 0)]
 
 
 def menus(tier):
-    """[(event menu, depth)]: the full 17-event menu to one depth, the reduced state-carrying menu one call deeper."""
+    """[(event menu, depth)]: the full 20-event menu to one depth, the reduced state-carrying menu one call deeper."""
     if tier == "quick":
         return [(FULL, 2), (REDUCED, 3)]
     return [(FULL, 3), (REDUCED, 4)]
@@ -466,13 +469,13 @@ def pp_replay(case, res: Result):
 SUBCHECKS = {
     "service": SubCheck(
         name="service",
-        describe="all sequences of pinch_analysis_service calls over a 17-event menu (5 colliding problems x dict / fresh model / one reused model), executed in long-lived processes",
+        describe="all sequences of pinch_analysis_service calls over a 20-event menu (6 colliding problems x dict / fresh model / one reused model), executed in long-lived processes",
         rule="state = digest of the library's module state (1 distinct state on a pure library); transition = one service call; "
              "non-trivial = history containing >=2 different problems; outcomes = distinct last events",
         explore=svc_explore, replay=svc_replay, prepare=lambda tier, inst: fresh_reference(inst),
         min_outcomes=2,
-        bound=lambda t: "all histories of <=2 calls over 17 events + <=3 calls over the 9 state-carrying events" if t == "quick"
-        else "all histories of <=3 calls over 17 events + <=4 calls over the 9 state-carrying events",
+        bound=lambda t: "all histories of <=2 calls over 20 events + <=3 calls over the 11 state-carrying events" if t == "quick"
+        else "all histories of <=3 calls over 20 events + <=4 calls over the 11 state-carrying events",
     ),
     "wrapper": SubCheck(
         name="wrapper",
